@@ -175,6 +175,36 @@ fn definite_comparison(
         return false;
     }
     let effective_op = if flipped { flip_op(op) } else { *op };
+    // Integer bounds against an integer literal compare exactly: the
+    // interpreter compares them as integers too, and f64 cannot tell
+    // 2^53 from 2^53 + 1.
+    let int_bounds: Option<(i64, i64)> = match stats {
+        ParquetStatistics::Int64(s) => match (s.min_opt(), s.max_opt()) {
+            (Some(a), Some(b)) => Some((*a, *b)),
+            _ => return false,
+        },
+        ParquetStatistics::Int32(s) => match (s.min_opt(), s.max_opt()) {
+            (Some(a), Some(b)) => Some((*a as i64, *b as i64)),
+            _ => return false,
+        },
+        _ => None,
+    };
+    let int_val: Option<i64> = match literal {
+        ScalarValue::Int64(v) | ScalarValue::Timestamp(v) => Some(*v),
+        ScalarValue::Int32(v) | ScalarValue::Date32(v) => Some(*v as i64),
+        _ => None,
+    };
+    if let (Some((min, max)), Some(val)) = (int_bounds, int_val) {
+        return match effective_op {
+            BinaryOp::Lt => max < val,
+            BinaryOp::LtEq => max <= val,
+            BinaryOp::Gt => min > val,
+            BinaryOp::GtEq => min >= val,
+            BinaryOp::Eq => min == val && max == val,
+            BinaryOp::NotEq => val < min || val > max,
+            _ => false,
+        };
+    }
     let (min, max): (f64, f64) = match stats {
         ParquetStatistics::Int64(s) => match (s.min_opt(), s.max_opt()) {
             (Some(a), Some(b)) => (*a as f64, *b as f64),
